@@ -31,6 +31,8 @@ namespace MJ.Reloader
 inductive COp where
   | req                 -- `notifier.request_reload()`
   | setFast (b : Bool)  -- `notifier.set_fast_reload(b)`
+  | watch               -- `notifier.watch_path(..)`   (feature watch-fs: registers with the fs watcher)
+  | persist (b : Bool)  -- `notifier.persistent_watch(b)`
   deriving DecidableEq, Repr
 
 /-- the served environment (ghost: when it was built / last cleared) -/
@@ -87,6 +89,10 @@ inductive Thread where
   | fastDone
   | cbIdle (b : Bool)         -- about to call `set_callback(|| b)` (replaces the freshness callback)
   | cbDone
+  | watchIdle                 -- about to call `notifier().watch_path(..)` from outside the creator
+  | watchDone
+  | persistIdle (b : Bool)    -- about to call `persistent_watch(b)`
+  | persistDone
   deriving DecidableEq, Repr
 
 def Thread.initial : Thread → Bool
@@ -94,6 +100,8 @@ def Thread.initial : Thread → Bool
   | .reqIdle => true
   | .fastIdle _ => true
   | .cbIdle _ => true
+  | .watchIdle => true
+  | .persistIdle _ => true
   | _ => false
 
 /-- a request that has returned -/
@@ -118,6 +126,12 @@ structure State where
   fast : Bool := false            -- NotifierImpl.fast_reload
   env : Option Env := none        -- AutoReloader.cached_env
   cur : Option Active := none     -- holder of the cached_env mutex
+  -- the fs watcher's lifetime (feature watch-fs)
+  persistent : Bool := false      -- NotifierImpl.persistent_fs_watcher
+  watching : Bool := false        -- NotifierImpl.fs_watcher.is_some() (with the registered paths)
+  registered : Bool := false      -- ghost: watch_path was called at least once
+  lastDrop : Option (Bool × Bool) := none  -- ghost: (persistent, fast) when the live watcher was last
+                                  -- thrown away by a reload and not re-registered since
   poisoned : Bool := false        -- the cached_env mutex is poisoned (a creator panicked under it)
   recoverPoison : Bool := false   -- model VARIANT (never set by `init`): `lock()` recovers from the poison
                                   -- instead of `unwrap()`ing it; used only to show what the poison protects
@@ -145,6 +159,12 @@ structure State where
 
 def init (ths : List Thread) : State := { threads := ths }
 
+/-- `prepare_and_mark_reload`: is the fs watcher thrown away before this reload?  Only when neither
+    `persistent_watch` nor fast reload is on (with fast reload the creator, which registered the
+    paths, does not run again; with persistent_watch the paths were registered once from outside).
+    Tied to the source by `MJ.C20.drop_cond_as_modelled`. -/
+def dropWatcher (persistent fast : Bool) : Bool := !persistent && !fast
+
 /-- one step of the mutex holder -/
 def stepActive (σ : State) (c : Active) : Option State :=
   let t := σ.now
@@ -163,7 +183,13 @@ def stepActive (σ : State) (c : Active) : Option State :=
       else
         some { σ with now := t + 1, cur := some { c with pc := .checked false, checkedAt := t, sawFlag := false } }
   | .checked true =>
-    some { σ with now := t + 1, flag := false, cur := some { c with pc := .reset } }
+    -- prepare_and_mark_reload: [maybe drop the fs watcher] then [flag := false]; two critical sections
+    -- on disjoint fields, merged (any step of another thread between them commutes with one of them)
+    let drop := dropWatcher σ.persistent σ.fast
+    some { σ with now := t + 1, flag := false,
+                  watching := if drop then false else σ.watching,
+                  lastDrop := if drop && σ.watching then some (σ.persistent, σ.fast) else σ.lastDrop,
+                  cur := some { c with pc := .reset } }
   | .reset =>
     if σ.env.isNone || !σ.fast then
       some { σ with now := t + 1, cur := some { c with pc := .toCreate } }
@@ -180,6 +206,11 @@ def stepActive (σ : State) (c : Active) : Option State :=
                   cur := some { c with pc := .creating rest } }
   | .creating (.setFast b :: rest) =>
     some { σ with now := t + 1, fast := b, cur := some { c with pc := .creating rest } }
+  | .creating (.watch :: rest) =>
+    some { σ with now := t + 1, watching := true, registered := true, lastDrop := none,
+                  cur := some { c with pc := .creating rest } }
+  | .creating (.persist b :: rest) =>
+    some { σ with now := t + 1, persistent := b, cur := some { c with pc := .creating rest } }
   | .creating [] =>
     if c.cfg.panics then
       -- the creator panics: the stack unwinds out of acquire_env, nothing re-arms the flag, the
@@ -243,6 +274,11 @@ def step (σ : State) (i : Nat) : Option State :=
     some { σ with now := t + 1, fast := b, threads := σ.threads.set i .fastDone }
   | some (.cbIdle b) =>
     some { σ with now := t + 1, cbConst := some b, threads := σ.threads.set i .cbDone }
+  | some .watchIdle =>
+    some { σ with now := t + 1, watching := true, registered := true, lastDrop := none,
+                  threads := σ.threads.set i .watchDone }
+  | some (.persistIdle b) =>
+    some { σ with now := t + 1, persistent := b, threads := σ.threads.set i .persistDone }
   | _ => none
 
 /-! ## file-system notifications as request sources
@@ -326,6 +362,8 @@ def pointName (σ : State) (i : Nat) : String :=
   | some .fastDone => "Done"
   | some (.cbIdle _) => "BeforeCallbackSet"
   | some .cbDone => "Done"
+  | some .watchIdle => "BeforeWatch" | some .watchDone => "Done"
+  | some (.persistIdle _) => "BeforePersist" | some .persistDone => "Done"
   | none => "?"
 
 /-- hook-to-hook step of thread `i` (what one scheduling decision of the harness executes);
